@@ -183,12 +183,28 @@ def minimal_failing(term, kind):
     return term
 
 
+def opset(term, acc=None):
+    if acc is None:
+        acc = set()
+    if term[0] not in ('arg', 'const'):
+        acc.add(term[0])
+    for c in term[2:]:
+        opset(c, acc)
+    return acc
+
+
 def signature(term, fail):
+    '''root-cause key.  Rewrite cycles / divergence: the node class the driver reports (or the periodic part of the rewrite trace)
+    plus the SET of constructors of the minimal failing subterm - one rewrite-rule interplay shows up for every parameter choice
+    of the same constructors, a different interplay involves different constructors.  Everything else: the failure kind plus the
+    minimal failing subterm with its leaves abstracted.'''
     kind, what = fail
     m = minimal_failing(term, kind)
-    if kind in ('cycle', 'diverged'):
-        cyc = what.split('rewrite cycle ')[-1].rstrip(')') if 'rewrite cycle' in what else what.split('last rewrites ')[-1]
-        return '{}:{}'.format(kind, cyc), m
+    if kind == 'cycle':
+        cls = what.split('.simplified')[0].split(' ')[-1] if '.simplified' in what else '?'
+        return 'cycle:{}:{}'.format(cls, '+'.join(sorted(opset(m)))), m
+    if kind in ('diverged', 'hang'):
+        return '{}:{}'.format(kind, '+'.join(sorted(opset(m)))), m
     return '{}:{}'.format(kind, abstract(m)), m
 
 
